@@ -115,11 +115,11 @@ AS_TRUST = COMMON_TRUST + ['coarse baton: a handler execution is atomic (justifi
 AS_ASSUME = ['mailbox policy (system first, user only when not paused, one handler at a time) is C01/C02', 'ask/futures, scheduler and event stream are outside this model (C04, C20, C19)']
 
 for _pid, _only, _must in [
-    ('C03', r'LOST-USER-MESSAGE|AFTER-STOP|ended twice|PANIC|LOST WAKE-UP|FATAL', ['ev:dead-letter']),
-    ('C05', r'LIFECYCLE|LAUNCH-TWICE|RESTART-NO-LAUNCH|PANIC|FATAL', ['ev:restarted', 'ev:zombie', 'ev:spawn-err:prelaunch']),
+    ('C03', r'LOST-USER-MESSAGE|AFTER-STOP|ended twice|PANIC|LOST WAKE-UP|FATAL', ['ev:dead-letter', 'stash:dec1:hooks0', 'stash:dec1:hooks1', 'stash:dec2', 'stash:dec3', 'stash:dec5', 'stash:deck']),
+    ('C05', r'LIFECYCLE|LAUNCH-TWICE|RESTART-NO-LAUNCH|STALE-INSTANCE|PANIC|FATAL', ['ev:restarted', 'ev:zombie', 'ev:spawn-err:prelaunch']),
     ('C06', r'KILL-ONCE|CHILDREN-FIRST|NOT-RELEASED|HALF-STOPPED|PANIC|FATAL', ['ev:killed-event', 'ev:spawn-err:exists', 'ev:spawn-err:dead']),
-    ('C08', r'DECIDE-TWICE|SUPERVISION-WHILE-STOPPING|PANIC|FATAL', ['ev:decide:1', 'ev:decide:2', 'ev:decide:3', 'ev:decide:4', 'ev:decide:5', 'ev:decide:6', 'matrix:']),
-    ('C09', r'STAYS-PAUSED|HALF-STOPPED|NO-ANSWER|PANIC|FATAL', ['ev:restarted', 'ev:zombie', 'ev:decide:5', 'ev:decide:2', 'ev:decide:4']),
+    ('C08', r'DECIDE-TWICE|SUPERVISION-WHILE-STOPPING|PANIC|FATAL', ['ev:decide:1', 'ev:decide:2', 'ev:decide:3', 'ev:decide:4', 'ev:decide:5', 'ev:decide:6', 'matrix:', 'escal:kindM1:depth1', 'escal:kindM2:depth1', 'escal:kindM2:depth2']),
+    ('C09', r'STAYS-PAUSED|HALF-STOPPED|NO-ANSWER|PANIC|FATAL', ['ev:restarted', 'ev:zombie', 'ev:decide:5', 'ev:decide:2', 'ev:decide:4', 'escal:kindM1:depth1', 'escal:kindM2:depth1', 'escal:kindM2:depth2', 'escal:dec5', 'escal:dec4', 'escal:dec2']),
     ('C19', r'ES-TABLES|EVENT-TWICE|EVENT-NOT-SUBSCRIBED|EVENT-MISSED|PANIC|FATAL', ['ev:es-sub', 'ev:es-unsub', 'ev:es-unsuball', 'ev:es-pub-with-subscribers']),
 ]:
     PROPS[_pid] = dict(
@@ -231,7 +231,7 @@ PROPS['C10'] = dict(
     modules=['Vivid.Props.C10'],
     gens=['access'],
     race=True,
-    engines=[dict(name='conc', nomodel=True, must_hit=['scenario:spawn-die', 'scenario:spawn-kill', 'scenario:spawn-fail', 'scenario:ask', 'scenario:es', 'scenario:ref'])],
+    engines=[dict(name='conc', nomodel=True, must_hit=['scenario:spawn-die', 'scenario:spawn-kill', 'scenario:spawn-fail', 'scenario:ask', 'scenario:es', 'scenario:ref', 'scenario:respawn', 'scenario:ask-die'])],
     extra_steps=[access_report],
     rule='Proof side: the access table (every read/write of a struct field in internal/actor and internal/future reachable from the documented-concurrent entry points or from the message handler, with the locks lexically held, '
          'atomic operations, publication idioms CAS-winner / close(done) / <-done as pseudo-locks, goroutine role) is regenerated from the source by harness/access (go/ast) and the lockset discipline is decided on the whole table by the kernel. '
